@@ -159,6 +159,12 @@ def check(ctx):
     DQ = GAS + "density_DAK"
     mu = only(run(ctx, GAS + "viscosity_Sutton", opaque={DQ}), "viscosity_Sutton").value.nf
     _expect_args(ctx, "C07-e", GAS + "viscosity_Sutton:density arguments", fv.where(), mu, DQ, names + ("specific_gravity",), "viscosity uses the library's density_DAK at its own (T, p, Tpc, ppc, gamma)")
+    # ---- C07-f viscosity positive and increasing with pressure (sign decisions over the declared range)
+    from .gasdak import isotherm_rules, viscosity_rules
+
+    viscosity_rules(ctx, "C07-f")
+    isotherm_rules(ctx, "C07-f")
+
     # ---- C07-g the Fluid facade hands these quantities out unchanged (users reach FVF and viscosity through it)
     from .c19 import check_delegation
 
